@@ -30,12 +30,14 @@ def scanSets : Tk → Option Bool
   | .kw _ => none                                                      -- :206
   | .illegal => some false
   | .eof => some false
+  | .regex _ => some true      -- the field keeps the `true` of the opening `/` or `/=` token (:303); scanString never touches it
 
 /-- can the token be the last token of a statement (ES5 §12, §11.1–11.3, §7.8)? -/
 def canEnd : Tk → Bool
   | .id _ | .num _ | .str _ | .bool _ | .null => true
   | .p .rparen | .p .rbrack | .p .rbrace | .p .inc | .p .dec => true
   | .p .kThis | .p .kBreak | .p .kReturn | .p .kContinue | .p .kDebugger => true
+  | .regex _ => true
   | _ => false
 
 /-- model: the flags `scan` reports, given for every token whether a line terminator precedes it -/
